@@ -9,14 +9,8 @@ package storage
 // ───────────── CONSENSUSSNAPSHOT key space ─────────────
 // graphConsensusSnapshotKey(ts, h) = "CONSENSUSSNAPSHOT" || big-endian ts (8 bytes) || h (32 bytes). ASSUMED (as for the other key
 // constructors): a deterministic, injective function of (ts, h) whose prefix differs from every other key prefix; the parse functions
-// keykind / keynum / keyhid invert it (kind 7).
-//@ uninterp ConsKeyId(ts mathint, h mathint) mathint
-//@ axiom forall t, h mathint :: {ConsKeyId(t, h)} keykind(ConsKeyId(t, h)) == 7 && keyhid(ConsKeyId(t, h)) == h && (0 <= t && t < 18446744073709551616 ==> keynum(ConsKeyId(t, h)) == t)
-//@ assume func graphConsensusSnapshotKey
-//@   modifies nothing
-//@   ensures fresh(result) && kvkey(result) == ConsKeyId(ts, kvval(snap))
-// ConsKey(k, ts): k is (the id of) a CONSENSUSSNAPSHOT key with timestamp ts
-//@ spec ConsKey(k mathint, ts mathint) bool = keykind(k) == 7 && keynum(k) == ts
+// keykind / keynum / keyhid invert it (kind 19).
+// (ConsKeyId kind 19, ConsKey, graphConsensusSnapshotKey: zz_contracts_keyspace_verif.go)
 
 // ───────────── the head of the recorded chain ─────────────
 // ChainHead(t): the snapshot of the newest CONSENSUSSNAPSHOT record the transaction sees (nil: no record). readLastConsensusSnapshot
